@@ -608,7 +608,7 @@ int sim_pthread_create(pthread_t *out, const pthread_attr_t *, void *(*fn)(void 
   c->has_real = true;
   make_runnable(c);
   g_ncreated++;
-  g_steps += 2000;  // simulated cost of creating a thread on the step clock (keeps step budgets meaningful for thread-heavy loops)
+  g_steps += 5000;  // simulated cost of creating a thread on the step clock (keeps step budgets meaningful for thread-heavy loops)
   g_live++;
   if (g_live > g_max_live) g_max_live = g_live;
   hist(0xC4EAULL ^ ((uint64_t)me->tid << 32) ^ ((uint64_t)c->tid << 8));
